@@ -4,6 +4,6 @@ id=$1; shift
 for k in 1 2 3; do
   d=${SEEDROOT:-/tmp/seed}/$id/out/$k
   [ -f $d/patch.diff ] || { echo "$d: no patch"; continue; }
-  [ -f $d/confirm.json ] || python3 /verif/tools/confirm_seed.py $d
-  echo "=== $id/$k"; python3 /verif/tools/try_seed.py $d $id "$@"
+  [ -f $d/confirm.json ] || python3 $(dirname $0)/confirm_seed.py $d
+  echo "=== $id/$k"; python3 $(dirname $0)/try_seed.py $d $id "$@"
 done
